@@ -38,10 +38,13 @@ func init() {
 		ID: "C24",
 		Explanation: "Decides structural necessary conditions of C24's sequence-number and ordering clauses: (SEQ-SOURCE) the key of every command added to the history is derived from bbolt's NextSequence() in the same transaction and from nothing else, the bucket's sequence is never set by hand, and 'next sequence number' is derived from the bucket's Sequence() (so numbers strictly increase and are never reused, even after deletions); (KEY-ORDER) the keys that cursor operations (Seek/Next/Prev/Last) compare are produced by one encoder that writes a fixed-width 8-byte big-endian integer and are read back by a decoder of the same width and byte order (byte-wise key order equals numeric order). Search semantics and directory scores are value-level and not decided.",
 		NotCovered:  "prefix-search results, listing contents, directory score arithmetic",
-		Rules:       []string{"SEQ-SOURCE", "KEY-ORDER"},
+		Rules:       []string{"SEQ-SOURCE", "KEY-ORDER", "ONE-TX: every store operation, listings included, runs at most one transaction (a listing walks one cursor over one snapshot)"},
 		Patterns:    []string{"./pkg/store/..."},
-		Run:         runC24,
-		MinCounts:   map[string]int{"SEQ-SOURCE": 3, "KEY-ORDER": 3},
+		Run: func(p *core.Program, r *core.Report) {
+			runC24(p, r)
+			runOneTx(p, r, "the operation runs two transactions (or one in a loop) on some path: a listing assembled from several snapshots can repeat or skip commands when the history changes, or when the place to resume is computed from what the previous batch returned, so it is no longer in sequence order")
+		},
+		MinCounts:   map[string]int{"SEQ-SOURCE": 3, "KEY-ORDER": 3, "ONE-TX": 8},
 		Trusted:     append([]string{"bbolt's NextSequence/Sequence semantics"}, trustedBase...),
 		Controls: []core.Control{
 			{Name: "key-from-sequence-plus-one", Rule: "SEQ-SOURCE", File: "pkg/store/cmd.go", Old: "\t\tseq, err = b.NextSequence()\n\t\tif err != nil {\n\t\t\treturn err\n\t\t}\n", New: "\t\tseq = b.Sequence() + 1\n", Fire: true, Quick: true},
